@@ -893,3 +893,13 @@ Proof. intros w c a n [|d ds] [|d' ds'] x H H'; congruence || reflexivity. Qed.
 
 Theorem zero_dim_rejected : forall w c a n x, exists e, store_nd w c a n [] x = Err e.
 Proof. intros w c a n x. unfold store_nd. destruct (replace_nan c x); eexists; reflexivity. Qed.
+
+(* an empty text array (a text child of an object whose entries were all removed) is stored as an empty variable-length
+   dataset and read back as an empty text array; /repo f36edcd *)
+Theorem text_empty_array_roundtrip : forall (enc : str -> option bytes) (dec : bytes -> option str) w a n,
+  run_text enc dec w a n (TArrU []) = TODone (TVArrU []) (RTVlen []) (TVArrU []).
+Proof.
+  intros enc dec w a n. unfold run_text. simpl text_set.
+  assert ((n <? 0)%nat = false) as Hn by (apply Nat.ltb_ge; lia).
+  destruct w, a; rewrite ?Hn; reflexivity.
+Qed.
